@@ -54,6 +54,22 @@ import GlmVerif.Props.C01.T_uasg_xor
 import GlmVerif.Props.C01.T_uasg_shl
 import GlmVerif.Props.C01.T_uasg_shr
 import GlmVerif.Props.C01.T_uasg_mod
+import GlmVerif.Props.C01.T_mabs
+import GlmVerif.Props.C01.T_mabsJ
+import GlmVerif.Props.C01.T_mequal
+import GlmVerif.Props.C01.T_mnotEqual
+import GlmVerif.Props.C01.T_mequal_e
+import GlmVerif.Props.C01.T_mnotEqual_e
+import GlmVerif.Props.C01.T_mequal_ev
+import GlmVerif.Props.C01.T_mnotEqual_ev
+import GlmVerif.Props.C01.T_mequalJ
+import GlmVerif.Props.C01.T_mnotEqualJ
+import GlmVerif.Props.C01.T_mequalJ_e
+import GlmVerif.Props.C01.T_mnotEqualJ_e
+import GlmVerif.Props.C01.T_mequalJ_ev
+import GlmVerif.Props.C01.T_mnotEqualJ_ev
+import GlmVerif.Props.C01.T_mmixs
+import GlmVerif.Props.C01.T_mmixm
 /-! every family table of C01 holds for the model generated from the current /repo -/
 namespace Glm.Props.C01
 open Glm Glm.Spec.C01 Glm.Gen.C01
@@ -113,5 +129,21 @@ theorem all_ok : ∀ f ∈ families, f.ok lookup = true := by
     (Family.ok_congr f_uasg_xor (fun ks => by rw [show f_uasg_xor.unit = "uasg_xor" from rfl, lookup_uasg_xor])).trans uasg_xor_ok,
     (Family.ok_congr f_uasg_shl (fun ks => by rw [show f_uasg_shl.unit = "uasg_shl" from rfl, lookup_uasg_shl])).trans uasg_shl_ok,
     (Family.ok_congr f_uasg_shr (fun ks => by rw [show f_uasg_shr.unit = "uasg_shr" from rfl, lookup_uasg_shr])).trans uasg_shr_ok,
-    (Family.ok_congr f_uasg_mod (fun ks => by rw [show f_uasg_mod.unit = "uasg_mod" from rfl, lookup_uasg_mod])).trans uasg_mod_ok⟩
+    (Family.ok_congr f_uasg_mod (fun ks => by rw [show f_uasg_mod.unit = "uasg_mod" from rfl, lookup_uasg_mod])).trans uasg_mod_ok,
+    (Family.ok_congr f_mabs (fun ks => by rw [show f_mabs.unit = "mabs" from rfl, lookup_mabs])).trans mabs_ok,
+    (Family.ok_congr f_mabsJ (fun ks => by rw [show f_mabsJ.unit = "mabsJ" from rfl, lookup_mabsJ])).trans mabsJ_ok,
+    (Family.ok_congr f_mequal (fun ks => by rw [show f_mequal.unit = "mequal" from rfl, lookup_mequal])).trans mequal_ok,
+    (Family.ok_congr f_mnotEqual (fun ks => by rw [show f_mnotEqual.unit = "mnotEqual" from rfl, lookup_mnotEqual])).trans mnotEqual_ok,
+    (Family.ok_congr f_mequal_e (fun ks => by rw [show f_mequal_e.unit = "mequal_e" from rfl, lookup_mequal_e])).trans mequal_e_ok,
+    (Family.ok_congr f_mnotEqual_e (fun ks => by rw [show f_mnotEqual_e.unit = "mnotEqual_e" from rfl, lookup_mnotEqual_e])).trans mnotEqual_e_ok,
+    (Family.ok_congr f_mequal_ev (fun ks => by rw [show f_mequal_ev.unit = "mequal_ev" from rfl, lookup_mequal_ev])).trans mequal_ev_ok,
+    (Family.ok_congr f_mnotEqual_ev (fun ks => by rw [show f_mnotEqual_ev.unit = "mnotEqual_ev" from rfl, lookup_mnotEqual_ev])).trans mnotEqual_ev_ok,
+    (Family.ok_congr f_mequalJ (fun ks => by rw [show f_mequalJ.unit = "mequalJ" from rfl, lookup_mequalJ])).trans mequalJ_ok,
+    (Family.ok_congr f_mnotEqualJ (fun ks => by rw [show f_mnotEqualJ.unit = "mnotEqualJ" from rfl, lookup_mnotEqualJ])).trans mnotEqualJ_ok,
+    (Family.ok_congr f_mequalJ_e (fun ks => by rw [show f_mequalJ_e.unit = "mequalJ_e" from rfl, lookup_mequalJ_e])).trans mequalJ_e_ok,
+    (Family.ok_congr f_mnotEqualJ_e (fun ks => by rw [show f_mnotEqualJ_e.unit = "mnotEqualJ_e" from rfl, lookup_mnotEqualJ_e])).trans mnotEqualJ_e_ok,
+    (Family.ok_congr f_mequalJ_ev (fun ks => by rw [show f_mequalJ_ev.unit = "mequalJ_ev" from rfl, lookup_mequalJ_ev])).trans mequalJ_ev_ok,
+    (Family.ok_congr f_mnotEqualJ_ev (fun ks => by rw [show f_mnotEqualJ_ev.unit = "mnotEqualJ_ev" from rfl, lookup_mnotEqualJ_ev])).trans mnotEqualJ_ev_ok,
+    (Family.ok_congr f_mmixs (fun ks => by rw [show f_mmixs.unit = "mmixs" from rfl, lookup_mmixs])).trans mmixs_ok,
+    (Family.ok_congr f_mmixm (fun ks => by rw [show f_mmixm.unit = "mmixm" from rfl, lookup_mmixm])).trans mmixm_ok⟩
 end Glm.Props.C01
